@@ -313,7 +313,7 @@ def gen_cases(ctx):
                 out.append((ins, 7, dt, "exh%d" % n))
     # 2. seeded random, up to 4 inputs over the full value sets
     rng = ctx.rng
-    for _ in range(ctx.n(1500, 30000)):
+    for _ in range(ctx.n(1500, 20000)):
         n = rng.randint(1, 4)
         ins = []
         for k in range(n):
